@@ -24,6 +24,8 @@ import (
 //	R-nonblocking-send  every channel send on a request path can give up (default arm, ctx/done arm)
 //	R-per-request-growth every server-lifetime collection a request path inserts into has a removal that
 //	                    request paths (or a background sweeper) can reach
+//   R-unbounded-input  no length-limited scanner on peer input
+//   (R-lock-order also reports re-entrant acquisition of one mutex through callees)
 func init() { Registry["C06"] = checkC06 }
 
 // panicException: explicit panics the peer cannot provoke, recognised by what controls them (not by where they are):
